@@ -1012,14 +1012,20 @@ func (vc *VC) bindAnchors(fi *FuncInfo, c *FuncContract) {
 			txt = "send:" + nodeText(vc.prog.Fset, x.Chan)
 		case *ast.IncDecStmt:
 			// "inc:x" / "dec:x" anchors x++ / x-- on a plain variable
-			id, ok := x.X.(*ast.Ident)
-			if !ok {
+			// (or on a field written as in the source: "inc:r.frameN")
+			var nm string
+			switch t := x.X.(type) {
+			case *ast.Ident:
+				nm = t.Name
+			case *ast.SelectorExpr:
+				nm = nodeText(vc.prog.Fset, t)
+			default:
 				return true
 			}
 			if x.Tok == token.INC {
-				txt = "inc:" + id.Name
+				txt = "inc:" + nm
 			} else {
-				txt = "dec:" + id.Name
+				txt = "dec:" + nm
 			}
 		case *ast.AssignStmt:
 			// "def:x" anchors the statement that defines local x (x := ...)
